@@ -357,6 +357,16 @@ func (x *Exec) frontBuiltin(env *SpecEnv, st *State, name string, args []TV) (TV
 			}
 		}
 		return TV{}, false
+	case "iterfresh":
+		// iterfresh(p): the object p points to was allocated in the current loop iteration (it is not shared
+		// with earlier iterations, e.g. with a coroutine spawned there that still reads it)
+		if len(args) == 1 {
+			if p, ok := x.force(st, args[0].V).(VPtr); ok && p.Loc != nil {
+				return TV{VScalar{BoolLit(p.Loc.Obj >= x.iterObjBase && x.iterObjBase > 0)}, boolT}, true
+			}
+			return TV{VScalar{TFalse}, boolT}, true
+		}
+		return TV{}, false
 	case "itercalls":
 		// itercalls("name"): recorded calls since the current loop iteration began (site ... backedge)
 		if n, ok := litArg(0); ok {
